@@ -239,6 +239,8 @@ impl Post {
 #[derive(Clone, Debug, PartialEq)]
 pub struct Txn {
     pub date: NaiveDate,
+    /// `DATE=EFFECTIVE` header form; book-keeping and reports go by `date` alone
+    pub effective: Option<NaiveDate>,
     /// Unique token identifying this transaction in diagnostics.
     pub payee: String,
     pub posts: Vec<Post>,
@@ -286,7 +288,10 @@ pub fn entry_text_named(e: &Entry, namer: &mut dyn Namer) -> (String, Vec<usize>
     // returns text (newline terminated) and posting line offsets (0-based within the entry)
     match e {
         Entry::Txn(t) => {
-            let mut s = format!("{} {}\n", t.date.format("%Y/%m/%d"), t.payee);
+            let mut s = match t.effective {
+                Some(e) => format!("{}={} {}\n", t.date.format("%Y/%m/%d"), e.format("%Y/%m/%d"), t.payee),
+                None => format!("{} {}\n", t.date.format("%Y/%m/%d"), t.payee),
+            };
             let mut lines = Vec::new();
             for (i, p) in t.posts.iter().enumerate() {
                 lines.push(1 + i);
